@@ -1,5 +1,6 @@
 import LnModel.Sexp
 import LnModel.Treeshake
+import LnModel.Domain
 import LnModel.Documented
 import LnModel.RustTy
 /-! Reading an OpenAPI document (as dumped by the harness from the *parsed* `openapiv3::OpenAPI`)
@@ -243,6 +244,7 @@ def step (req : Sexp) : Option Sexp :=
   | .list [.atom "ref_type", .str sp, t] => (tyOfS t).map fun t => textX (toReferenceType sp t)
   | .list [.atom "is_ref_type", t] => (tyOfS t).map fun t => b (isReferenceType t)
   | .list [.atom "extract", s] => (specOf s).map fun spec => xTo hirTo (extractSpec spec)
+  | .list [.atom "in_d", s] => (specOf s).map fun spec => b (inD spec)
   | .list [.atom "extract_raw", s] => (specOf s).map fun spec => xTo hirTo (extractWithoutTreeshake spec)
   | _ => none
 
